@@ -50,6 +50,49 @@ def run(chk):
             m = index["shards"][0]["cases"][0]
             chk.sample({"assignment": m["assignment"], "formats": m["formats"], "inputs": m["inputs"], "capacity": cap, "kind": m["kind"]})
     chk.extra["initial_capacities"] = [c or "default(2^20)" for c in caps]
+    if not quick:
+        asan_sweep(chk)
+
+
+def asan_sweep(chk):
+    """the same kernels compiled from the emitted C with gcc -fsanitize=address,undefined"""
+    import json
+    import subprocess
+    from concurrent.futures import ThreadPoolExecutor
+
+    from vlib.core import BUILD, GUARD, PY, VERIF, impl_env, sh
+
+    rc, libasan, _ = sh(["gcc", "-print-file-name=libasan.so"])
+    libasan = libasan.strip()
+    base = BUILD / "asan"
+    base.mkdir(parents=True, exist_ok=True)
+
+    def one(k):
+        d = base / f"w{k}"
+        d.mkdir(exist_ok=True)
+        cfg = {"seed": chk.seed * 101 + k, "max_problems": 6, "n_inputs": 2, "fmt_cap": 3, "builddir": str(d)}
+        env = impl_env({GUARD: "1" if k % 2 == 0 else "2", "LD_PRELOAD": libasan,
+                        "ASAN_OPTIONS": "detect_leaks=0:exitcode=99", "UBSAN_OPTIONS": "halt_on_error=1:print_stacktrace=1"})
+        return k, sh([PY, "-B", str(VERIF / "tools" / "harness" / "c05_asan.py")], env=env, input=json.dumps(cfg), timeout=2400, cwd=str(VERIF))
+
+    with ThreadPoolExecutor(max_workers=6) as ex:
+        results = list(ex.map(one, range(6)))
+    total = 0
+    for k, (rc, out, err) in results:
+        cases = [l[5:] for l in out.splitlines() if l.startswith("CASE ")]
+        res = [l[7:] for l in out.splitlines() if l.startswith("RESULT ")]
+        total += len(cases)
+        for c in cases:
+            chk.case(("asan", c))
+        if rc != 0 or not res:
+            last = json.loads(cases[-1]) if cases else {}
+            chk.violation("kernel compiled from the emitted C with -fsanitize=address,undefined was stopped by the sanitizer (or crashed)",
+                          dict(last, exit_code=rc, sanitizer_report_tail=err[-3000:]))
+            continue
+        r = json.loads(res[0])
+        for m in r["mismatches"]:
+            chk.violation("kernel compiled from the emitted C (sanitizer build) differs from the LLVM JIT result", m)
+    chk.count("asan_kernel_runs", total)
 
 
 def replay(chk, payload):
